@@ -171,6 +171,13 @@ def patchNew (merge : Bool) : (isObj : Bool) → (pa : Path) → (before remove 
     | e => e
   | true, _, _, _, _, _ => .err
 
+/-- jsonSet.patch looks for the keyed member in two passes: first an object with the key values of the
+    path; failing that (`keyedTol = true`), one which lacks the keys that are null in the path -/
+def keyedTol (po : List (String × Json)) (xs : List Json) : Bool :=
+  !(xs.any (fun x => match x with
+    | .obj kvs => pathIdent [.set] kvs po == identObj [.set] po
+    | _ => false))
+
 mutual
 /-- `n.patch(pathBehind, pathAhead, before, oldValues, newValues, after, strategy)` -/
 def patchNode (sw : Bool) (merge : Bool) (n : Json) (pa : Path)
@@ -203,7 +210,7 @@ def patchNode (sw : Bool) (merge : Bool) (n : Json) (pa : Path)
           else .err
         | .setKeys po :: rest =>
           if rest.isEmpty then .err
-          else patchKeyed sw (identObj [.set] po) po rest before remove add after [] xs
+          else patchKeyed sw (keyedTol po xs) (identObj [.set] po) po rest before remove add after [] xs
         | .set :: _ => patchSetLeaf [.set] xs remove add
         | _ => .err
     | .mset =>
@@ -257,21 +264,21 @@ def patchListChild (sw : Bool) (i : Nat) (rest : Path)
 termination_by (sizeOf xs, 0)
 
 /-- the `PathSetKeys` branch of jsonSet.patch: the first object member whose `pathIdent` matches is
-    patched in place; `pre` are the members already passed over, `xs` those still to be searched -/
-def patchKeyed (sw : Bool) (lookingFor : UInt64) (po : List (String × Json)) (rest : Path)
+    patched in place (`tol`: the second pass, in which absent keys count as null); `pre` are the members already passed over, `xs` those still to be searched -/
+def patchKeyed (sw : Bool) (tol : Bool) (lookingFor : UInt64) (po : List (String × Json)) (rest : Path)
     (before remove add after : List Json) (pre : List Json) (xs : List Json) : Outcome Json :=
   match xs with
   | [] => .err
   | x :: r =>
     match x with
     | .obj kvs =>
-      if pathIdent [.set] kvs po == lookingFor then
+      if (if tol then pathIdentTol [.set] kvs po else pathIdent [.set] kvs po) == lookingFor then
         match patchNode sw false (.obj kvs) rest before remove add after with
         | .ok v' => .ok (.arr .set (pre ++ v' :: r))
         | .err => if sw then .ok (.arr .set (pre ++ x :: r)) else .err
         | .panic => .panic
-      else patchKeyed sw lookingFor po rest before remove add after (pre ++ [x]) r
-    | _ => patchKeyed sw lookingFor po rest before remove add after (pre ++ [x]) r
+      else patchKeyed sw tol lookingFor po rest before remove add after (pre ++ [x]) r
+    | _ => patchKeyed sw tol lookingFor po rest before remove add after (pre ++ [x]) r
 termination_by (sizeOf xs, 0)
 
 end
